@@ -11,6 +11,7 @@ COMMON = [
 PROPS = {
     "C02": dict(level="exploration", shards=(4, 16), timeout=(900, 3000), assumptions=COMMON, fuzz=[("FuzzC02", 240)]),
     "C01": dict(level="exploration", shards=(4, 16), timeout=(600, 3000), assumptions=COMMON),
+    "C05": dict(level="exploration", shards=(4, 16), timeout=(900, 3000), assumptions=COMMON + ["loopback TCP / WebSocket deliver bytes in order; quiescence is detected by waiting (up to 5 s, 20 s on the confirming re-run) until the expected number of stanzas was routed"]),
     "C06": dict(level="exploration", shards=(2, 16), timeout=(300, 1500), assumptions=COMMON),
     "C09": dict(level="exploration", shards=(4, 16), timeout=(600, 3000), assumptions=COMMON + ["loopback TCP delivers bytes in order; the scripted peer's own count of stanzas it sent is the wire truth"]),
     "C14": dict(level="exploration", shards=(4, 16), timeout=(600, 3000), assumptions=COMMON + ["loopback TCP delivers bytes in order; the scripted peer's transcript is what the client wrote"]),
@@ -25,6 +26,11 @@ NOT_APPLICABLE = {}
 
 # Texts for MANIFEST.json
 TEXT = {
+    "C05": dict(
+        technique="history-based property test (rapid) of real Client/Component sessions against the scripted peer (TCP and WebSocket); multiset oracle over routed stanza ids",
+        level_text="Exploration: generated inbound histories (stanzas of every kind with unique ids and sizes up to 30 KB, <r/>, <a/>, other non-stanza elements) x client/TCP, client/WebSocket, component/TCP x three stream-management modes x write segmentations / WebSocket continuation frames x three endings; a catch-all route records every routed stanza; after quiescence the routed multiset must equal the sent multiset, components must keep arrival order, every <r/> must be answered. A library panic kills the test process and is reported by the driver with the journalled case.",
+        level_note="The interleavings of the per-packet routing goroutines are those the Go scheduler produces (plus -race in the thorough tier); they are not enumerated. Missing-stanza verdicts wait 5 s and are confirmed by a re-run with 4x margins before being reported.",
+    ),
     "C09": dict(
         technique="history-based property test (rapid) of a real Client against a scripted peer that keeps the wire truth",
         level_text="Exploration: generated inbound histories over stanzas, <r/>, <a/> and other non-stanza elements on 1-4 successive connections of one stream-managed session (drop + Resume in between); the peer counts the stanzas it sent and compares the h of every <a/> answer and of every <resume/> with that count, and previd with the id it gave.",
